@@ -122,6 +122,9 @@ pub struct Hist<'a> {
     pub open: Vec<String>,
     pub known_hits: Vec<(String, String)>,
     pub in_cache_since: BTreeMap<usize, (u64, u64)>,
+    /// per (pair, fingerprint): since when (time, step) the path has been in the worker's cache at *every* state the
+    /// worker published (not only at quiescent points: a path can leave and re-enter between two of them)
+    pub member_since: Arc<Mutex<BTreeMap<((u64, u64), String), (u64, u64)>>>,
     pub reports_during_lookup: usize,
     /// every report ever handed to the stack (also duplicates)
     pub all_reports: Vec<Report>,
@@ -169,8 +172,10 @@ impl<'a> Hist<'a> {
         strategy.policies = policies.policies.clone();
         let mgr = MultiPathManager::new(cfg.build(), fetcher, strategy).expect("drawn configuration is valid");
         let probes: Arc<Mutex<BTreeMap<(u64, u64), (PathSetProbe, u64, Option<ActorId>)>>> = Arc::new(Mutex::new(BTreeMap::new()));
+        let member_since: Arc<Mutex<BTreeMap<((u64, u64), String), (u64, u64)>>> = Arc::new(Mutex::new(BTreeMap::new()));
         {
             let probes = probes.clone();
+            let member_since = member_since.clone();
             let sim2 = sim.clone();
             sim.set_probe_fn(Arc::new(move |key, v| {
                 if key == "pathset" {
@@ -187,6 +192,16 @@ impl<'a> Hist<'a> {
                             })
                             .collect();
                         sim2.log(format!("probe {} ->{} active={} cached=[{}] fails={}", p.step, p.dst, act.as_deref().map(|f| f[..4].to_string()).unwrap_or("-".into()), cached.join(" "), p.failed_attempts));
+                        {
+                            let key = pair_key((p.src, p.dst));
+                            let present: Vec<String> = p.cached.iter().map(|(path, _, _)| format!("{:#}", path.fingerprint())).collect();
+                            let mut ms = member_since.lock().unwrap();
+                            ms.retain(|(k, f), _| *k != key || present.contains(f));
+                            let now_ns = sim2.now_ns();
+                            for f in present {
+                                ms.entry((key, f)).or_insert((now_ns, step));
+                            }
+                        }
                         probes.lock().unwrap().insert(pair_key((p.src, p.dst)), (p.clone(), step, simrt::current_actor()));
                     }
                 }
@@ -231,6 +246,7 @@ impl<'a> Hist<'a> {
             open: Vec::new(),
             known_hits: Vec::new(),
             in_cache_since: BTreeMap::new(),
+            member_since,
             reports_during_lookup: 0,
             all_reports: Vec::new(),
             stack,
